@@ -139,8 +139,25 @@ def run_shard(spec, res):
             if len(keep) > 3000:
                 del keep[:1500]
     elif kind == "fp":
-        for i in range(spec["n"]):
-            d = c02.sym_case(rng) if i % 2 else c02.tree_case(rng, rng.choice("FD"), rng.choice([1, 2]), concrete=False)
+        # comparisons against the special values (Z3's rewriter turns e.g. x < +oo into Not(x = NaN) and Not(x = +oo),
+        # with SMT equality, which is not IEEE equality)
+        directed = []
+        for S_ in "FD":
+            x_, y_ = ["fps", "x" + S_, S_], ["fps", "y" + S_, S_]
+            eb, sb = (8, 23) if S_ == "F" else (11, 52)
+            specials = [((1 << eb) - 1) << sb, (1 << (eb + sb)) | (((1 << eb) - 1) << sb), (((1 << eb) - 1) << sb) | (1 << (sb - 1)), 0, 1 << (eb + sb), 1, (((1 << eb) - 1) << sb) - 1]
+            for bits in specials:
+                k_ = ["fpv", bits, S_]
+                for cmp_ in c02.CMPS:
+                    directed += [[cmp_, x_, k_], [cmp_, k_, x_], ["bnot", [cmp_, x_, k_]], [cmp_, ["fpadd", "RNE", x_, y_], k_], ["band", [cmp_, x_, k_], ["bnot", [cmp_, y_, k_]]]]
+                directed += [["ite", [rng.choice(c02.CMPS), x_, k_], x_, k_]]
+        nstreams = 2 if spec["tier"] == "quick" else 8
+        mine = directed[spec["stream"] % nstreams :: nstreams]
+        for i in range(spec["n"] + len(mine)):
+            if i < len(mine):
+                d = mine[i]
+            else:
+                d = c02.sym_case(rng) if i % 2 else c02.tree_case(rng, rng.choice("FD"), rng.choice([1, 2]), concrete=False)
             if not fpref.has_vars(d):
                 continue
             try:
@@ -190,6 +207,15 @@ def run_shard(spec, res):
             except Exception:  # noqa: BLE001
                 continue
             refs = [{"bv": z3ref.term, "fp": fpref.term, "str": strref.term}[f](d) for f, d in cons_d]
+            if i % 4 == 1 and cls not in (claripy.SolverHybrid, claripy.SolverReplacement):
+                # some constraints carry annotations (a user annotation, UninitializedAnnotation): simplify() sorts the
+                # constraints by their annotations and must not lose any
+                from vf.gen import astwork
+
+                for j in range(len(cons)):
+                    if rng.random() < 0.5 and isinstance(cons[j], claripy.ast.Base) and cons[j].symbolic:
+                        cons[j] = cons[j].annotate(rng.choice([astwork.NE("c"), astwork.ELIM("c"), astwork.REL("c"), claripy.annotation.UninitializedAnnotation()]))
+                        res.count("solver_annotated_constraints")
             s = cls()
             is_bv = all(f == "bv" for f, _ in cons_d)
             try:
